@@ -442,6 +442,7 @@ func runC05(o *Out, rng *RNG, tier string, replay string) {
 	r.sequences(settings[5], settings[0])
 	r.crossProcessFresh()
 	r.settingsIsolationProbe()
+	c05MultiCipherProbe(o, rng.Fork())
 }
 
 // ---------------------------------------------------------------- (1) round trips
